@@ -440,9 +440,13 @@ func checkCmd(args []string) {
 				}
 			}
 			newFindings = append(newFindings, fmt.Sprintf("open: property=%s obligation=%s witness=%s :: %s %s (%s:%d) %s", *prop, o.Name, w, o.Class, o.Text, shortFile(o.Pos.Filename), o.Pos.Line, rc.Detail))
-		case ledger.proved[o.Name]:
+		case ledger.proved[o.Name] && !(o.Class == "cover" && o.Result != "refuted"):
 			p := writeReplay(o, rc, "obligation discharged on the pinned tree and fails now")
 			violations = append(violations, fmt.Sprintf("VIOLATION property=%s replay=%s no-failing-input-found", *prop, p))
+		case o.Class == "cover" && o.Result != "refuted":
+			// the vacuity guard only speaks when the assumptions are shown inconsistent (unsat); a solver that
+			// gives up on the satisfiability query says nothing
+			undecided = append(undecided, o.Name)
 		case contractClasses[o.Class]:
 			p := writeReplay(o, rc, "contract obligation not discharged")
 			violations = append(violations, fmt.Sprintf("VIOLATION property=%s replay=%s no-failing-input-found", *prop, p))
